@@ -505,6 +505,40 @@ def interleave(r, sels, nh=4, force=False):
     return b
 
 
+SHARED_KEYS = [(1, 2, 3, 4), (0, 0, 0, 0), TEST_KEY, (0xdbe6d5d5fe4cce2f ^ 0xFFFFFFF0, M64, 0x8000000000000000, 0x00000000FFFFFFFF)]
+
+
+def shared_builders(r, info):
+    """the process-wide builders of the native runner (shared by all its threads): hash_one and build_hasher
+    on a SHARED builder must behave like a private one with the same key"""
+    b = B("shared-builders", ["buildhasher-shared"])
+    for _ in range(r.randrange(2, 7)):
+        slot = r.randrange(4)
+        k = SHARED_KEYS[slot]
+        if r.random() < 0.6:
+            tok, ws = rval(r, info)
+            i = b.op(f"shone {slot} {tok}")
+            j = b.op(f"hash portable 64 {kstr(k)} {hexbytes(b''.join(ws))}")
+            b.eq(i, j, "hash_one on a shared builder is not the portable hash of (key, bytes fed)")
+        else:
+            h = r.randrange(8)
+            data = rbytes(r, r.choice((0, 3, 31, 32, 33, 70)))
+            b.op(f"shbh {h} {slot}")
+            b.op(f"hwrite {h} {hexbytes(data)}")
+            f = b.op(f"finish {h}")
+            j = b.op(f"hash portable 64 {kstr(k)} {hexbytes(data)}")
+            b.eq(f, j, "a hasher handed out by a shared builder differs from the portable hash under the builder's key")
+    return b
+
+
+def shared_stress(r):
+    """thread-stage only (sequential vs 16 threads): many hash_one calls on the shared builders"""
+    b = B("shared-stress", ["buildhasher-shared-stress"])
+    for _ in range(3):
+        b.op(f"shstress {r.randrange(4)} {r.choice((20000, 50000))} {r.getrandbits(60):x}")
+    return b
+
+
 def builders(r, n=None):
     """hashers handed out by `HighwayBuildHasher`: several builders with different keys used in turn
     (same stack slot in the runner), several hashers per builder, interleaved use; each must behave
